@@ -46,14 +46,14 @@ LEVEL = {
             "fix only multiplies columns by +-1; flipping columns by signs s multiplies (C^T dV C)_pq by s_p s_q, hence forces are invariant and "
             "couplings / force-matrix entries change by that factor only (magnitudes invariant) - so energies, forces and coupling magnitudes depend "
             "on the position alone given that eigh is a function of V(x); update() rebinds every result attribute of the new object to a fresh "
-            "location, so no earlier result is written. Tied to the code by sign-fix correspondence with captured eigh and by update scripts on one "
+            "location, so no earlier result is written. Along a whole path of any length (induction over the path, `track`): every tracked set has non-negative overlaps with its predecessor, is the fresh set of its own position times column signs, and two histories reaching the same position by different paths from different references get the same forces, coupling magnitudes and force-matrix magnitudes. Tied to the code by whole-path correspondence (op track: every tracked set of 3..8 continued updates, captured eigh), by sign-fix correspondence with captured eigh and by update scripts on one "
             "shared model object (smooth paths, jumps, revisits, interleaved continuations) checked for overlaps, history independence, bit-stability "
             "of earlier results and absence of shared arrays", "7 C06", NOTE,
             "Lean 4 theorems (Finset algebra of the basis rotation, location model of update) + script oracle"),
     "C07": ("proof", "Lean theorems, exact, any dimension/state count/force field/number of steps: velocity Verlet is time-symmetric; reversing velocities "
             "conjugates the midpoint generator; the code's step matrix equals exp(-i dt W) for ANY unitary eigendecomposition (independent of eigh's "
             "choice); the electronic step with the reversed generator undoes the step on the conjugated state; nuclear+electronic step and whole "
-            "forward-then-reversed runs return to the start. PARTIAL: order two is not formalised (symmetric + consistent => even order is cited); "
+            "forward-then-reversed runs return to the start. Order two: PROVED for harmonic models (any modes, masses, number of steps, |omega dt|<=1) with explicit constants - exact flow (HasDerivAt), local error <= (|x|+|v/omega|)|omega dt|^3, stability (shadow invariant), global error after k steps <= k|omega dt|^3 |z0| = (|omega|T)(omega dt)^2 |z0|; a generator that does not change along the path is integrated without discretisation error (exp_steps_compose); PARTIAL for a general smooth force (symmetric + consistent => even order is cited, not formalised); "
             "the factor four is a Richardson test on the implementation (two finest ratios of four levels). The model has both the true-midpoint and "
             "the aliased generator; the correspondence of single real steps tells them apart The composed step is Verlet + midpoint generator + exp exactly when no event is logged (StepThm.shStep_event, shStep_common); whole hop-free runs correspond.", "7 C07", NOTE,
             "Lean 4 theorems (ring identities, Matrix.exp conjugation/transposition, induction over steps) + single-step correspondence"),
@@ -95,7 +95,7 @@ LEVEL = {
             "uninterrupted run logs after step k and ends in the same state; counterexample theorem for the originally pinned step counter. "
             "The electronic gauge at the restart point is a KNOWN FINDING (fresh eigh sign; reference coefficients not logged): such cases are "
             "reported as KNOWN-FINDING and re-checked with the tracked electronics handed to restart(), where exact agreement is required. Tied to "
-            "real restarts from YAML logs (Ehrenfest, MD, FSSH with thresholds; page sizes 1..16; both rules) StepThm.shRun_append: a run over a++b is the run over a followed by the run over b from the state and electronics the first part ended with.", "7 C13", NOTE,
+            "real restarts from YAML logs (Ehrenfest, MD, FSSH with thresholds; page sizes 1..16; both rules) StepThm.shRun_append / shRun_drop, ehRun_append / _drop, cumRun_append / _drop, verletRun_add: for FSSH, Ehrenfest, cumulative FSSH and single-surface MD a run over a++b is the run over a followed by the run over b from the state and electronics the first part ended with, i.e. the restarted run logs exactly the uninterrupted log with the first |a| entries dropped.", "7 C13", NOTE,
             "Lean 4 theorems (induction over the position stream, split lemma) + restart oracle at sampled/every interruption point"),
     "C14": ("proof", "Lean refinement of the YAML store to 'a plain list of snapshots', for every page size >= 1 and every history: collect = append "
             "(invariant preserved, all file operations succeed), len, indexing incl. negative indices and IndexError, reload reproduces the object state "
@@ -127,13 +127,13 @@ LEVEL = {
             "affine transport: a rule exact to degree d on [-1,1] is exact to degree d on [a,b] under the code's map (all polynomials), so Gauss-Legendre = "
             "numpy leggauss contract + this theorem; counterexample theorem for the originally pinned weights*=0.5. Clenshaw-Curtis is modelled completely "
             "(the inverse FFT by its definition, the inverse DFT): for every n>=2 the weights sum to b-a (roots-of-unity sums + telescoping), nodes strictly "
-            "increasing in [a,b] with ends a and b, end weights positive in closed form. Partial: positivity of the interior CC weights and CC exactness to "
-            "degree n-1 for all n are not proved; CC and the leggauss contract are tested per n (2..64 quick, ..384 thorough) in 60-digit "
+            "increasing in [a,b] with ends a and b, ALL weights positive and none smaller than the end weights (every entry of the ifft input but the first is <= 0, so each output is >= wcc0 > 0), symmetric. Partial: CC exactness to "
+            "degree n-1 for all n is not proved; CC and the leggauss contract are tested per n (2..64 quick, ..384 thorough) in 60-digit "
             "arithmetic. Spawn-stack tensor structure: oracle on the implementation (theorem with the SpawnStack model, C10)", "7 C18", NOTE,
             "Lean 4 theorems (Finset sums, induction on panels, Polynomial.comp + integral substitution) + correspondence for all five rules"),
     "C19": ("proof", "Lean theorems: scaled Boltzmann momenta have kinetic energy per dof exactly kT/2 (any masses>0, T>=0, any draws with "
             "non-zero KE); unscaled p_i = sqrt(m_i kT) z_i; normal generator deviations sigma/2 and 1/sigma, skipped iff a negative component; "
-            "SeedSequence.spawn bookkeeping: children keys pairwise distinct, prefix-stable in the number requested, never repeated by later spawns. "
+            "SeedSequence.spawn bookkeeping: children keys pairwise distinct, prefix-stable in the number requested, never repeated by later spawns. The generator loops themselves (constGen, normalGen, boltzmannGen): the constant generator yields exactly the requested number of identical conditions; the normal generator never yields more than requested, every yielded sample is the sample of one of the draws with no negative momentum component, the samples for k requests are a prefix of those for k' >= k; every Boltzmann sample with scaling has KE exactly kT/2 per dof; in all three the seeds carried by the yielded samples are pairwise distinct (a skipped draw's seed is never reused). Correspondence of whole generator calls (also on generator objects called before) with ops normalgen/constgen/boltzgen. "
             "Normality/independence of numpy's draws is numpy's contract (stated, not proved)", "7 C19", NOTE,
             "Lean 4 theorems (Real.sqrt algebra, list lemmas) + correspondence with recovered normal draws"),
     "C20": ("proof", "Lean theorems at R/C about the model of poisson_prob_scale (value at 0, exact closed form outside the switch, "
